@@ -613,28 +613,75 @@ def run(ck):
     text = c16_fields.to_coq(classes, funcs)
     nfields = sum(len(v["fields"]) for k, v in classes.items() if k in c16_fields.CLASSES)
     ck.log("translator: %d classes, %d functions, %d members" % (len([c for c in classes if c in c16_fields.CLASSES]), len(funcs), nfields))
+    spec_text = open(os.path.join(vlib.COQ, "theories", "Lifecycle", "ResetSpec.v")).read()
+    vf = re.search(r"(?s)Definition value_funcs : list string :=\s*\[(.*?)\]\.", spec_text)
+    value_funcs = set(re.findall(r'"([^"]+)"', vf.group(1))) if vf else set()
+    value_rows = [(q, v) for q in value_funcs for v in funcs.get(q, {}).get("vals", ())]
+    sq = re.search(r"(?s)Definition val_seq .*?\n\]\.", text)
+    n_seq_rows = sq.group(0).count("  mk_val ") if sq else 0
     regen = own_regen(ck, text)
     gen_dir = None
     gen_failed = False
     uncovered = []
+    bad_vals = []
+    bad_td = []
+    bad_ov = []
+    hyg = closed = vhyg = tdok = awv = ovok = []
     if regen is not None:
         gen_dir, failed, log = regen
         gen_failed = bool(failed)
         ck.notes.append("coq/gen/ResetFields.v differs from the committed snapshot: regenerated and recompiled (failed: %s)" % failed)
         if gen_failed:
             # which members break the obligation? evaluated by the SAME Coq checker (function `uncovered`), not by python
-            ev = text.split("Lemma reset_fields_ok")[0] + \
-                "Eval vm_compute in (uncovered classes funcs).\nEval vm_compute in (hygiene classes funcs).\nEval vm_compute in (reach_closed funcs).\n"
+            ev = re.sub(r"(?s)Lemma \w+ :.*?Qed\.", "", text) + \
+                "Eval vm_compute in (uncovered classes funcs).\nEval vm_compute in (hygiene classes funcs).\n" \
+                "Eval vm_compute in (reach_closed funcs).\nEval vm_compute in (bad_values inits vals).\n" \
+                "Eval vm_compute in (values_hygiene inits vals).\nEval vm_compute in (bad_teardown inits val_seq funcs).\n" \
+                "Eval vm_compute in (check_teardown inits val_seq funcs).\nEval vm_compute in (assign_writes_have_values funcs vals).\n" \
+                "Eval vm_compute in (bad_object_values inits vals_on).\nEval vm_compute in (check_object_values inits vals_on).\n"
             rc, out = ck.coq_eval(ev, name="c16_uncovered")
-            uncovered = re.findall(r'\("([^"]*)",\s*"([^"]*)",\s*"([^"]*)"\)', out)
-            bools = re.findall(r"=\s*(true|false)\s*:\s*bool", out)
-            hyg, closed = bools[:1], bools[1:2]
-            ck.log("reflection lemma failed; uncovered members: %s; hygiene: %s; closures closed: %s" % (uncovered, hyg, closed))
+            blocks = re.split(r"(?m)^\s+= ", out)[1:]          # one block per Eval, in order
+            blocks += [""] * (10 - len(blocks))
+            triple = r'\("([^"]*)",\s*"([^"]*)",\s*"([^"]*)"\)'
+            uncovered = re.findall(triple, blocks[0])
+            bad_vals = re.findall(triple, blocks[3])
+            bad_td = re.findall(triple, blocks[5])
+            isb = lambda b: re.findall(r"^(true|false)\s*:\s*bool", b.strip())[:1]
+            hyg, closed, vhyg, tdok = isb(blocks[1]), isb(blocks[2]), isb(blocks[4]), isb(blocks[6])
+            awv = isb(blocks[7])
+            bad_ov = re.findall(triple, blocks[8])
+            ovok = isb(blocks[9])
+            for (fn_, cls_, fld_) in sorted(set(bad_ov)):
+                dm_ = cls_ + "::" + fld_
+                ck.violation("C16/reset-object-value/%s/%s/%s" % (fn_, cls_, fld_),
+                             "%s assigns member %s of the object it resets a value that is not the member's initial value (theorem "
+                             "C16_detached_object_gets_initial_values fails on the regenerated ResetFields.v)" % (fn_, dm_),
+                             {"broken": "theorem C16_detached_object_gets_initial_values", "function": fn_, "class": cls_, "member": fld_,
+                              "file": "coq/gen/ResetFields.v (regenerated)"}, no_input=True)
+            if ovok == ["false"] and not bad_ov:
+                ck.violation("C16/reset-object-list-stale", "a (function, object) pair of ResetSpec.value_obj_funcs no longer has an extracted "
+                             "assignment", {"broken": "check_object_values inits vals_on = true"}, no_input=True)
+            if awv == ["false"]:
+                ck.violation("C16/translator-extractions-disagree", "a whole-member assign-write of a reviewed pure reset / tear-down function has no "
+                             "extracted value row: the write list and the value list of tools/c16_fields.py disagree, so the value obligation "
+                             "would not see that assignment", {"broken": "assign_writes_have_values funcs vals = true (gen/ResetFields.v)"},
+                             no_input=True)
+            ck.log("reflection lemma failed; uncovered members: %s; hygiene: %s; closures closed: %s; assignments that do not write the "
+                   "initial value: %s; value lists live: %s; tear-down failures: %s (check_teardown: %s)" % (uncovered, hyg, closed, bad_vals, vhyg, bad_td, tdok))
+            if tdok == ["false"] and not bad_td:
+                ck.violation("C16/teardown-list-stale", "a function on the reviewed list of set-up/tear-down functions (ResetSpec.teardown_funcs) no "
+                             "longer assigns any member twice (or no longer exists)",
+                             {"broken": "check_teardown inits val_seq funcs = true (teardown_ok)"}, no_input=True)
+            if vhyg == ["false"]:
+                ck.violation("C16/reset-value-lists-stale", "a function on the reviewed list of pure reset functions (ResetSpec.value_funcs) has no "
+                             "extracted assignment any more, or a reviewed value exception no longer names an assignment that differs from the "
+                             "initial value", {"broken": "values_hygiene inits vals = true (part of reset_values_ok)"}, no_input=True)
             if closed == ["false"]:
                 ck.violation("C16/reach-closure-incomplete", "the callee closure computed for a FollowAll root of a reset route is not closed under "
                              "the extracted call edges (fuel exhausted?): the coverage verdicts would be computed over too few functions",
                              {"broken": "reach_closed funcs = true (coq/gen/ResetFields.v)"}, no_input=True)
-            if rc != 0 or (not uncovered and hyg != ["false"] and closed != ["false"]):
+            if rc != 0 or (not uncovered and not bad_vals and hyg != ["false"] and closed != ["false"] and vhyg != ["false"]
+                           and tdok != ["false"] and awv != ["false"] and ovok != ["false"]):
                 ck.violation("C16/translator-output-does-not-compile", "regenerated ResetFields.v does not compile: %s" % (log + out)[-1500:],
                              {"broken": "translator tie coq/gen/ResetFields.v", "log": (log + out)[-3000:]}, no_input=True)
             elif hyg == ["false"]:
@@ -643,9 +690,25 @@ def run(ck):
                              {"broken": "hygiene classes funcs = true (part of reset_fields_ok)"}, no_input=True)
     if gen_failed:
         obl = ck.coq_properties()            # committed snapshot: lifecycle theorems still recorded; the coverage ones are overridden below
+        cov_failed = bool(uncovered) or hyg == ["false"] or closed == ["false"]
+        val_failed = bool(bad_vals) or vhyg == ["false"]
+        td_failed = tdok == ["false"]
+        if awv == ["false"]:
+            val_failed = True
+        ov_failed = ovok == ["false"]
+        if not cov_failed and not val_failed and not td_failed and not ov_failed:
+            cov_failed = val_failed = td_failed = ov_failed = True          # the regenerated file fails for a reason the evaluation did not identify
         for o in obl:
-            if o["name"] in ("C16_every_field_reset", "C16_no_uncovered_member", "C16_route_glue_calls_present", "C16_covered_means_written",
-                             "C16_route_closure_complete"):
+            if ov_failed and o["name"] == "C16_detached_object_gets_initial_values":
+                o["ok"] = False
+        for o in obl:
+            if cov_failed and o["name"] in ("C16_every_field_reset", "C16_no_uncovered_member", "C16_route_glue_calls_present",
+                                            "C16_covered_means_written", "C16_route_closure_complete"):
+                o["ok"] = False
+            if val_failed and o["name"] in ("C16_reset_value_is_initial_value", "C16_reset_value_lists_are_live",
+                                            "C16_reset_function_leaves_initial_values", "C16_assign_idiom_writes_initial_value"):
+                o["ok"] = False
+            if td_failed and o["name"] in ("C16_teardown_restores_initial_value", "C16_teardown_final_store"):
                 o["ok"] = False
     else:
         obl = ck.coq_properties(gen_dir=gen_dir)
@@ -718,6 +781,8 @@ def run(ck):
     dist = {"by_kind": {}, "steps": {}, "static_arena": 0, "with_error_op": 0, "final_reset": {}}
     nontrivial = set()
     witness_hits = set()
+    probe_hits = {}
+    detached_hits, detached_count = {}, {}
     for variant, res, errs, clist in (("plain", res_plain, err_plain, cases), ("dirty-malloc", res_dirty, err_dirty, cases),
                                       ("asan", res_asan, err_asan, asan_cases)):
         for c in clist:
@@ -747,12 +812,23 @@ def run(ck):
                              {"case": c, "variant": variant, "report": rep[-3000:], "status": r.get("X")})
                 continue
             rec, fresh = r["R"], r["F"]
+            if "D" in r:
+                dm = r["D"].split(" ")
+                stats["detached_probe_comparisons"] = stats.get("detached_probe_comparisons", 0) + int(dm[0])
+                if len(dm) > 1 and dm[1] != "-":
+                    for part in dm[1].split(";"):
+                        where, _, mems = part.partition(":")
+                        for mem in mems.split(","):
+                            detached_hits.setdefault(mem, (c, where, variant))
+                            detached_count[mem] = detached_count.get(mem, 0) + 1
             if "M" in r:
                 pm = r["M"].split(" ")
                 stats["probe_runs"] += 1
                 stats["probe_member_comparisons"] += int(pm[0])
                 if len(pm) > 1 and pm[1] != "-":
                     stats["probe_diffs"] += 1
+                    for mem in pm[1].split(","):
+                        probe_hits.setdefault(mem, c)
                     for mem in pm[1].split(",")[:4]:
                         ck.violation("C16/residue/member/" + mem,
                                      "%s build: after the final reset-like step of the lifecycle the data member %s of the recycled object does "
@@ -896,9 +972,71 @@ def run(ck):
             explained.add(m)     # the differential exhibited a concrete failing lifecycle for this member (reported above)
             ck.notes.append("uncovered member %s (route %s): concrete failing lifecycle reported by the differential" % (m, route))
         else:
-            ck.violation(key, what, {"broken": "theorem C16_every_field_reset", "route": route, "class": cls, "member": fld,
-                                     "file": "coq/gen/ResetFields.v (regenerated)"}, no_input=True)
+            rp = {"broken": "theorem C16_every_field_reset", "route": route, "class": cls, "member": fld,
+                  "file": "coq/gen/ResetFields.v (regenerated)"}
+            dm = cls + "::" + fld
+            ph = [x for x in probe_hits if x == dm]
+            if dm in detached_hits:      # concrete lifecycle: the detached probe sees the member keep its old value
+                rp["case"], rp["step"] = detached_hits[dm][0], detached_hits[dm][1]
+                ck.violation(key, what + "; failing lifecycle: right after step %s the detached probe finds the member different from a "
+                             "never-attached emitter's / never-initialised holder's" % rp["step"], rp)
+            elif ph:
+                rp["case"] = probe_hits[ph[0]]
+                ck.violation(key, what + "; failing lifecycle: after its final reset the representation probe finds the member different "
+                             "from a fresh object's", rp)
+            else:
+                ck.violation(key, what, rp, no_input=True)
+    # ---------------------------------------------------------------- detached probe
+    # members the reviewed specification declares persistent across a holder reset / a detach may differ from a never-attached
+    # emitter / never-initialised holder (ResetSpec.persistent, routes holder.reset / detach / detach_all); any other member may not
+    persist_ok = set("%s::%s" % (c_, f_) for (r_, c_, f_) in re.findall(r'mk_persist "([^"]*)" "([^"]*)" "([^"]*)"', spec_text)
+                     if r_ in ("holder.reset", "detach", "detach_all"))
+    ck.log("detached probe: %d member comparisons, differing members: %s" % (stats.get("detached_probe_comparisons", 0), detached_count))
+    stats["detached_probe_persistent_members_differing"] = sorted(m for m in detached_count if m in persist_ok)
+    stats["detached_probe_diffs"] = sum(n for m, n in detached_count.items() if m not in persist_ok)
+    for mem in sorted(detached_count):
+        if mem in persist_ok:
+            continue
+        c, where, variant = detached_hits[mem]
+        ck.violation("C16/residue/detached-member/" + mem,
+                     "%s build: right after step %s of the lifecycle (holder reset / detach, before the next init / attach) the data member %s "
+                     "does not have the representation it has in a never-attached emitter / never-initialised holder of the same "
+                     "configuration, and it is not on the reviewed persistent list (%d lifecycles)" % (variant, where, mem, detached_count[mem]),
+                     {"case": c, "variant": variant, "step": where, "member": mem})
+    # ---------------------------------------------------------------- value obligation failures -> named assignments
+    for (fn, cls, fld) in bad_vals:
+        hit = [m for m in probe_hits if cls in m and m.endswith("::" + fld)]
+        dhit = [m for m in detached_hits if m == cls + "::" + fld]
+        what = ("%s assigns member %s::%s a value that is not the member's initial value (constructor / in-class initialiser) and the "
+                "assignment is not a reviewed exception (theorem C16_reset_value_is_initial_value fails on the regenerated "
+                "ResetFields.v)" % (fn, cls, fld))
+        rp = {"broken": "theorem C16_reset_value_is_initial_value", "function": fn, "class": cls, "member": fld,
+              "file": "coq/gen/ResetFields.v (regenerated)"}
+        if dhit:
+            rp["case"], rp["step"] = detached_hits[dhit[0]][0], detached_hits[dhit[0]][1]
+            ck.violation("C16/reset-value/%s/%s/%s" % (fn, cls, fld), what + "; failing lifecycle: right after step %s the detached probe "
+                         "finds the member different from a never-attached emitter's / never-initialised holder's" % rp["step"], rp)
+        elif hit:
+            rp["case"] = probe_hits[hit[0]]          # a lifecycle after which the representation probe shows the member differs
+            ck.violation("C16/reset-value/%s/%s/%s" % (fn, cls, fld), what + "; failing lifecycle: the representation probe finds the member "
+                         "different from a fresh object's after the final reset", rp)
+        else:
+            ck.violation("C16/reset-value/%s/%s/%s" % (fn, cls, fld), what, rp, no_input=True)
+    for (fn, cls, fld) in sorted(set(bad_td)):
+        ck.violation("C16/teardown-value/%s/%s/%s" % (fn, cls, fld),
+                     "the last assignment of member %s::%s in %s (source order) does not write the member's initial value, or the function has no "
+                     "unconditional assignment of it: the working value set up by the function survives it (theorem "
+                     "C16_teardown_restores_initial_value fails on the regenerated ResetFields.v)" % (cls, fld, fn),
+                     {"broken": "theorem C16_teardown_restores_initial_value", "function": fn, "class": cls, "member": fld,
+                      "file": "coq/gen/ResetFields.v (regenerated)"}, no_input=True)
     for o in ck.proof_failures():
+        if gen_failed and bad_ov and o["name"] == "C16_detached_object_gets_initial_values":
+            continue            # reported per member at the translator stage
+        if gen_failed and bad_td and o["name"] in ("C16_teardown_restores_initial_value", "C16_teardown_final_store"):
+            continue            # reported per member above
+        if gen_failed and bad_vals and o["name"] in ("C16_reset_value_is_initial_value", "C16_reset_value_lists_are_live",
+                                                     "C16_reset_function_leaves_initial_values"):
+            continue            # reported per assignment above
         if gen_failed and uncovered and o["name"] in ("C16_every_field_reset", "C16_no_uncovered_member", "C16_route_glue_calls_present",
                                                       "C16_covered_means_written", "C16_route_closure_complete"):
             continue            # reported per member above
@@ -923,7 +1061,18 @@ def run(ck):
                  "final dumps are counted" % (12 if ck.tier == "quick" else 40, n_asan),
          "samples": samples, "differential": stats, "input_distribution": dist,
          "translator": {"classes": len([c for c in classes if c in c16_fields.CLASSES]), "members": nfields, "functions": len(funcs),
-                        "regenerated": regen is not None, "uncovered_members": ["%s:%s::%s" % u for u in uncovered]},
+                        "regenerated": regen is not None, "uncovered_members": ["%s:%s::%s" % u for u in uncovered],
+                        "initial_values": text.count("  mk_init "), "assignments_with_value": text.count("  mk_val ") - n_seq_rows,
+                        "assignments_of_pure_reset_functions_checked": len(value_rows),
+                        "assignments_not_writing_initial_value": ["%s: %s::%s" % b for b in bad_vals],
+                        "ordered_assignments": n_seq_rows,
+                        "teardown_failures": ["%s: %s::%s" % b for b in bad_td]},
+         "detached_probe": {"member_comparisons": stats.get("detached_probe_comparisons", 0),
+                            "persistent_members_differing": stats.get("detached_probe_persistent_members_differing", []),
+                            "rule": "at every RS / RH step right after CodeHolder::reset (before init + attach) and at every DA step right after "
+                                    "detach: every non-skipped data member of the emitter vs. a never-attached emitter of the same kind and "
+                                    "configuration, and (RS / RH) of the holder vs. a never-initialised holder; members on the reviewed persistent "
+                                    "list of the routes holder.reset / detach / detach_all may differ"},
          "representation_probe": {"members_in_table": n_probe_members, "skipped_kinds": inc_text.count("K_SKIP"),
                                   "rule": "after the final reset-like (+ neutral) steps, before the final program: every non-skipped data member of "
                                           "CodeHolder / BaseEmitter / BaseAssembler|BaseBuilder / BaseCompiler of the recycled objects vs. fresh objects "
@@ -934,18 +1083,23 @@ def run(ck):
                          "abandoned function: counter effects measured, not computed (lifecycle_model_correspondence.measured_programs)",
                          "C08 command streams with strict validation are left to C08 (the validator's verdict is an input of its model)"],
          "proved_vs_compared": {
-             "proved_for_all_inputs": "36+ theorems: coverage obligation over ALL members/routes of the regenerated data; lifecycle model over ALL "
-                                      "histories; C08 node-list model over ALL command sequences and histories (no finite sweep, no sampling)",
+             "proved_for_all_inputs": "73 theorems: coverage obligation over ALL members/routes of the regenerated data; value and tear-down "
+                                      "obligations over ALL extracted assignments of the reviewed reset / tear-down functions; lifecycle model over "
+                                      "ALL histories from the start state (no `ready` side condition); C08 node-list model over ALL command "
+                                      "sequences and histories (no `supported` side condition; no finite sweep, no sampling)",
+             "moved_to_proved_in_round_6": "`supported` and `ready` hypotheses discharged; WHAT a reset statement writes (the initial value) was "
+                                           "only observed by the probes, now an obligation re-proved per run; tear-down of run_on_function",
              "compared_on_generated_inputs": "implementation vs extracted models on every generated lifecycle step and every C08 command "
                                              "(counts in lifecycle_model_correspondence / recycled_builder_correspondence); recycled vs fresh "
-                                             "objects on every generated lifecycle (differential, representation_probe)",
+                                             "objects on every generated lifecycle (differential, representation_probe, detached_probe)",
              "the key 'samples' below lists a few of the compared cases verbatim (required evidence field); nothing is claimed from them": True},
          "recycled_builder_correspondence": rb_info,
          "lifecycle_model_correspondence": corr, "traces_validated_against_impl": corr["scripts"]},
         assumptions=["theorems are about the extracted member/write/call-graph data and the Gallina lifecycle model, not about the C++ text",
                      "tools/c16_fields.py sees every MemberExpr write / member call / call edge of the dumped translation units (clang 14 AST)",
                      "the reviewed lists in coq/theories/Lifecycle/ResetSpec.v (routes, reset idioms, special idioms, persistent members with "
-                     "their reasons) are right; address-independence and logger-independence are tested by the differential, not proved"],
+                     "their reasons, pure reset functions, value exceptions, tear-down functions) are right; initial and assigned values are "
+                     "compared as expressions (names only), not evaluated; address-independence and logger-independence are tested by the differential, not proved"],
         checker_cmd="coqc (Coq 8.16.1) -Q coq/theories Verif -Q <regenerated gen dir> VerifGen coq/theories/Properties/Properties_C16.v",
         trusted_base=["Coq 8.16.1 kernel incl. vm_compute", "no axioms: every theorem 'Closed under the global context'",
                       "clang 14 -ast-dump=json + tools/c16_fields.py (translator)", "coq/theories/Lifecycle/ResetSpec.v reviewed lists",
